@@ -28,7 +28,8 @@ Qed.
 
 (* ------------------------------------------------------------------ token and state relations *)
 Definition paren_rel (s s' : str) : Prop :=
-  exists o x x', is_lparen o = true /\ s = o :: x /\ s' = o :: x' /\ relayout MCode x x'.
+  exists o y y' cl, is_lparen o = true /\ code_char cl = true /\
+                    s = o :: y ++ [cl] /\ s' = o :: y' ++ [cl] /\ relayout MCode (y ++ [cl]) (y' ++ [cl]).
 
 Definition tok_sim (t t' : token) : Prop :=
   t_ty t = t_ty t' /\ t_mlen t = t_mlen t' /\ t_glued t = t_glued t' /\
@@ -89,7 +90,7 @@ Lemma str_test_sim (P : str -> bool) t t' :
   tok_sim t t' -> (forall o r, is_lparen o = true -> P (o :: r) = false) -> P (t_str t) = P (t_str t').
 Proof.
   intros (Hty & _ & _ & Hs) HP. destruct (is_paren_ty (t_ty t)).
-  - destruct Hs as (o & x & x' & Ho & -> & -> & _). rewrite !HP by assumption. reflexivity.
+  - destruct Hs as (o & x & x' & cl & Ho & _ & -> & -> & _). rewrite !HP by assumption. reflexivity.
   - rewrite Hs. reflexivity.
 Qed.
 
@@ -391,7 +392,7 @@ Proof.
     assert (Ht : tok_sim (mkTok (paren_ty o) (fst tp0) (snd tp0) (rev (rev (o :: x ++ [c]))) 0 None pg0)
                          (mkTok (paren_ty o) (fst tp1) (snd tp1) (rev (rev (o :: x' ++ [c]))) 0 None pg1)).
     { rewrite !rev_involutive. unfold tok_sim. cbn. rewrite paren_ty_is_paren. repeat split; auto.
-      exists o, (x ++ [c]), (x' ++ [c]). repeat split; auto.
+      exists o, x, x', c. repeat split; auto.
       specialize (Hacc' [] [] (rl_nil MCode)). rewrite !app_nil_r in Hacc'. apply Hacc'. intros _ _. cbn. auto. }
     cbn [new_tok] in *.
     set (T := mkTok (paren_ty o) (fst tp0) (snd tp0) (rev (rev (o :: x ++ [c]))) 0 None pg0) in *.
